@@ -26,7 +26,7 @@ PLAN = {
     "C11": {"quick": 16000, "thorough": 600000},
     "C12": {"quick": 24000, "thorough": 4000000},
     "C13": {"quick": 11694, "thorough": 35082},  # lane L: the whole catalogue once / three times (other schedulers)
-    "C14": {"quick": 15462, "thorough": 516090},  # 2x / 30x the enumerated grid (7731 / 17203 cells)
+    "C14": {"quick": 15690, "thorough": 103902},  # 2x / 6x the enumerated grid (7845 / 17317 cells)
     "C15": {"quick": 16000, "thorough": 300000},
     "C17": {"quick": 40000, "thorough": 200000},
     "C20": {"quick": 60000, "thorough": 3000000},
